@@ -1,6 +1,7 @@
 import BV.Lemmas.AdaptersWriterSpec
 import BV.Lemmas.AdaptersReaderSim
-import BV.Lemmas.AdaptersCopy
+import BV.Lemmas.AdaptersCopySim
+import BV.Lemmas.AdaptersStreamEnc
 /-
 C11 — Reader/writer adapters terminate and are transparent to short I/O and I/O errors.
 
@@ -9,8 +10,10 @@ Model: `BV/Model/Adapters.lean` (writer.rs, reader.rs, the copy loop of enc/mod.
 `adapters` correspondence run.  Every theorem below quantifies over
 
 * EVERY encoder `E : Enc σ` (any state type) subject only to the named hypotheses
-  `EncSane` (stays inside the slices) and `EncProgress E rank` (a successful call that was
-  demanded, had output room and consumed nothing lowers a rank) — discharged for a concrete
+  `EncSane` (stays inside the slices) and `EncProgress E ops rank` (a successful call of a kind in
+  `ops` that was demanded, had output room and consumed nothing lowers a rank) — PROVED for the
+  stream-machine model `BV.Stream` (section "the MODELLED stream machine": the `…_stream`
+  theorems need only that the payload encoder's answers are bounded), discharged for a toy
   encoder in `toy_sane` / `toy_progress`, and checked on every answer of the real encoder by the
   harness (`adapters:oracle-hypothesis`);
 * EVERY script of the wrapped stream: per raw call `full | atMost k | intr | err c | zero`,
@@ -46,11 +49,12 @@ theorem read_empty_is_zero (E : Enc σ) (fuel : Nat) (r : Reader σ) :
 
 /-- `read_returns`: every `read`, for every buffer length including 0, every script of the wrapped
 reader and every state reachable through the API, returns after finitely many loop iterations -/
-theorem read_returns (E : Enc σ) (rank : σ → Nat) (hp : EncProgress E rank) (r : Reader σ) (hwf : r.WF)
+theorem read_returns (E : Enc σ) (ops : Op → Prop) (rank : σ → Nat) (hp : EncProgress E ops rank)
+    (hops : ops .process ∧ ops .finish) (r : Reader σ) (hwf : r.WF)
     (cap : Nat) : ∃ N, ∀ fuel, N ≤ fuel → (Reader.read E fuel r cap).2 ≠ .livelock := by
   by_cases hc : cap = 0
   · subst hc; exact ⟨0, fun fuel _ => by rw [read_empty_is_zero]; simp⟩
-  · obtain ⟨N, hN⟩ := readLoop_terminates E rank hp cap (Nat.pos_of_ne_zero hc) _ _ _ r hwf rfl rfl rfl
+  · obtain ⟨N, hN⟩ := readLoop_terminates E ops rank hp hops cap (Nat.pos_of_ne_zero hc) _ _ _ r hwf rfl rfl rfl
     refine ⟨N, fun fuel hf => ?_⟩
     unfold Reader.read
     rw [if_neg hc, if_neg (by have := hwf.1; omega)]
@@ -59,24 +63,24 @@ theorem read_returns (E : Enc σ) (rank : σ → Nat) (hp : EncProgress E rank) 
 /-- the invariant `WF` holds for a new reader and is kept by every successful `read` -/
 theorem reader_wf_new (b : Nat) (e : σ) (src : Source) : (Reader.new b e src).WF := Reader.new_WF b e src
 
-theorem write_returns (E : Enc σ) (rank : σ → Nat) (hp : EncProgress E rank) (w : Writer σ)
+theorem write_returns (E : Enc σ) (ops : Op → Prop) (rank : σ → Nat) (hp : EncProgress E ops rank) (hops : ops .process) (w : Writer σ)
     (hb : 0 < w.bufSize) (buf : Bytes) :
     ∃ N, ∀ fuel, N ≤ fuel → (Writer.write E fuel w buf).2 ≠ .livelock :=
-  writeLoop_terminates E rank hp buf.length _ _ w buf rfl rfl hb
+  writeLoop_terminates E ops rank hp hops buf.length _ _ w buf rfl rfl hb
 
-theorem into_inner_returns (E : Enc σ) (rank : σ → Nat) (hp : EncProgress E rank) (w : Writer σ)
+theorem into_inner_returns (E : Enc σ) (ops : Op → Prop) (rank : σ → Nat) (hp : EncProgress E ops rank) (hops : ops .finish) (w : Writer σ)
     (hb : 0 < w.bufSize) :
     ∃ N, ∀ fuel, N ≤ fuel → (Writer.intoInner E fuel w).2 ≠ .livelock := by
-  obtain ⟨N, hN⟩ := flushOrClose_terminates E rank hp .finish (by simp) _ w rfl hb
+  obtain ⟨N, hN⟩ := flushOrClose_terminates E ops rank hp .finish hops (by simp) _ w rfl hb
   refine ⟨N, fun fuel hf => ?_⟩
   have := hN fuel hf
   unfold Writer.intoInner
   split <;> simp_all
 
-theorem flush_returns (E : Enc σ) (rank : σ → Nat) (hp : EncProgress E rank) (w : Writer σ)
+theorem flush_returns (E : Enc σ) (ops : Op → Prop) (rank : σ → Nat) (hp : EncProgress E ops rank) (hops : ops .flush) (w : Writer σ)
     (hb : 0 < w.bufSize) :
     ∃ N, ∀ fuel, N ≤ fuel → (Writer.flush E fuel w).2 ≠ .livelock := by
-  obtain ⟨N, hN⟩ := flushOrClose_terminates E rank hp .flush (by simp) _ w rfl hb
+  obtain ⟨N, hN⟩ := flushOrClose_terminates E ops rank hp .flush hops (by simp) _ w rfl hb
   refine ⟨N, fun fuel hf => ?_⟩
   have := hN fuel hf
   unfold Writer.flush
@@ -89,14 +93,15 @@ theorem flush_returns (E : Enc σ) (rank : σ → Nat) (hp : EncProgress E rank)
 
 /-- `copy_terminates`: the copy function returns for every pair of scripts — in particular a
 wrapped writer that answers `Ok(0)` (once, or forever) ends it with an error instead of spinning -/
-theorem copy_terminates (E : Enc σ) (rank : σ → Nat) (hp : EncProgress E rank) (ib ob : Nat) (e : σ)
+theorem copy_terminates (E : Enc σ) (ops : Op → Prop) (rank : σ → Nat) (hp : EncProgress E ops rank)
+    (hops : ops .process ∧ ops .finish) (ib ob : Nat) (e : σ)
     (src : Source) (sink : Sink) :
     ∃ N, ∀ fuel, N ≤ fuel → (Copy.run E fuel ib ob e src sink).2 ≠ .livelock := by
   unfold Copy.run
   by_cases h0 : ib = 0 ∨ ob = 0
   · exact ⟨0, fun fuel _ => by simp [h0]⟩
   · have hob : 0 < ob := by omega
-    obtain ⟨N, hN⟩ := Copy.loop_terminates E rank hp _ _ _
+    obtain ⟨N, hN⟩ := Copy.loop_terminates E ops rank hp hops _ _ _
       ({ ibuf := List.replicate ib 0, obufSize := ob, pending := [], nextIn := 0, availableIn := 0, eof := false,
          readErr := none, enc := e, src := src, sink := sink, totalOut := 0, elog := [] } : Copy σ)
       ⟨by simp, by simpa using hob, by simp⟩ rfl rfl rfl
@@ -377,18 +382,38 @@ theorem short_reads_transparent_start (bufSize : Nat) (e : σ) (data : Bytes) (s
 theorem sim_same_encoder_calls {a b : Reader σ} (h : Reader.Sim a b) : a.elog = b.elog ∧ a.enc = b.enc :=
   ⟨h.elog, h.enc⟩
 
-/-- the refill of the copy function over a wrapped reader that never fails: the fill level, the
-valid bytes, the EOF flag and the remaining source are functions of the source bytes alone
-(`short_reads_transparent_partial` for the copy function: the per-iteration step; the loop-level
-simulation is proved for the reader, which shares this refill loop) -/
-theorem copy_refill_independent_of_script (c : Copy σ) (hlen : c.availableIn ≤ c.ibuf.length) (hf : c.src.faultFree) :
-    c.fill.availableIn = c.availableIn + fillAmount c.ibuf.length c.availableIn c.eof c.src.data.length ∧
-    c.fill.ibuf.take c.fill.availableIn
-      = c.ibuf.take c.availableIn ++ c.src.data.take (fillAmount c.ibuf.length c.availableIn c.eof c.src.data.length) ∧
-    c.fill.src.data = c.src.data.drop (fillAmount c.ibuf.length c.availableIn c.eof c.src.data.length) ∧
-    c.fill.eof = (c.eof || decide (c.src.data.length < c.ibuf.length - c.availableIn)) ∧ c.fill.readErr = c.readErr := by
-  obtain ⟨a1, _, a3, a4, a5, a6, _⟩ := Copy.fill_faultFree c hlen hf
-  exact ⟨a3, a4, a5, a6, a1⟩
+/-- `short_reads_transparent` + `short_writes_transparent` for the copy function (strong form): two
+runs of `BrotliCompressCustomIoCustomDict` over the same source bytes whose wrapped reader AND wrapped
+writer follow different scripts of short reads / short writes / `Interrupted`s (no hard error, no
+premature `Ok(0)` read, no zero-length write) return the same result; unless that result is a panic
+they have made the same encoder calls (`elog`), left the encoder in the same state and handed the
+same bytes to the sink -/
+theorem short_io_transparent_copy (E : Enc σ) (fuel ib ob : Nat) (e : σ) (data : Bytes)
+    (r1 r2 w1 w2 : List Beh) (rt1 rt2 wt1 wt2 : Tail)
+    (hr1 : ∀ b ∈ r1, b.faultFree = true) (hr2 : ∀ b ∈ r2, b.faultFree = true)
+    (hw1 : ∀ b ∈ w1, b.faultFree = true) (hw2 : ∀ b ∈ w2, b.faultFree = true)
+    (hrt1 : rt1.faultFree = true) (hrt2 : rt2.faultFree = true) (hwt1 : wt1.faultFree = true) (hwt2 : wt2.faultFree = true) :
+    (Copy.run E fuel ib ob e ⟨data, r1, rt1, []⟩ ⟨w1, wt1, [], [], []⟩).2
+      = (Copy.run E fuel ib ob e ⟨data, r2, rt2, []⟩ ⟨w2, wt2, [], [], []⟩).2 ∧
+    ((Copy.run E fuel ib ob e ⟨data, r1, rt1, []⟩ ⟨w1, wt1, [], [], []⟩).2 ≠ .panic →
+      (Copy.run E fuel ib ob e ⟨data, r1, rt1, []⟩ ⟨w1, wt1, [], [], []⟩).1.elog
+        = (Copy.run E fuel ib ob e ⟨data, r2, rt2, []⟩ ⟨w2, wt2, [], [], []⟩).1.elog ∧
+      (Copy.run E fuel ib ob e ⟨data, r1, rt1, []⟩ ⟨w1, wt1, [], [], []⟩).1.enc
+        = (Copy.run E fuel ib ob e ⟨data, r2, rt2, []⟩ ⟨w2, wt2, [], [], []⟩).1.enc ∧
+      (Copy.run E fuel ib ob e ⟨data, r1, rt1, []⟩ ⟨w1, wt1, [], [], []⟩).1.sink.got
+        = (Copy.run E fuel ib ob e ⟨data, r2, rt2, []⟩ ⟨w2, wt2, [], [], []⟩).1.sink.got) := by
+  unfold Copy.run
+  by_cases h0 : ib = 0 ∨ ob = 0
+  · simp [h0]
+  · simp only [h0, if_false]
+    have hsim : Copy.Sim
+        ({ ibuf := List.replicate ib 0, obufSize := ob, pending := [], nextIn := 0, availableIn := 0, eof := false,
+           readErr := none, enc := e, src := ⟨data, r1, rt1, []⟩, sink := ⟨w1, wt1, [], [], []⟩, totalOut := 0, elog := [] } : Copy σ)
+        ({ ibuf := List.replicate ib 0, obufSize := ob, pending := [], nextIn := 0, availableIn := 0, eof := false,
+           readErr := none, enc := e, src := ⟨data, r2, rt2, []⟩, sink := ⟨w2, wt2, [], [], []⟩, totalOut := 0, elog := [] } : Copy σ) := by
+      constructor <;> first | rfl | exact ⟨hr1, hrt1⟩ | exact ⟨hr2, hrt2⟩ | exact ⟨hw1, hwt1⟩ | exact ⟨hw2, hwt2⟩ | simp
+    obtain ⟨k1, k2⟩ := Copy.loop_sim E fuel hsim
+    exact ⟨k1, fun hne => ⟨(k2 hne).elog, (k2 hne).enc, (k2 hne).got⟩⟩
 
 /-! ## if every call succeeded the stream is complete -/
 
@@ -517,10 +542,64 @@ theorem all_ok_complete_copy (E : Enc σ) (fuel ib ob : Nat) (e : σ) (src : Sou
     subst k1
     exact ⟨j2, j3, j4, by simpa using j5, by simpa [Copy.window] using j6, j7⟩
 
+/-! ## the same for the MODELLED stream machine (M8) instead of an assumed encoder
+
+`streamEnc o` wraps `BV.Stream.compressStream` (another worker's model of encode.rs, imported) as an
+`Enc`; `EncSane` and `EncProgress` are PROVED for it (`BV/Lemmas/AdaptersStream*.lean`: cursor balance
+of every call; a cross-call rank — "final block / flush still due", padding owed, pending bytes —
+that every accepted call with output room which consumed nothing lowers).  What is left assumed is
+about the payload encoder only: `OracleBounded o B` (its answers have at most `B` bits).  A call in
+which the stream model panics, or that leaves the envelope `Good` (positions ≥ 2^64), makes the
+wrapped encoder answer `ok = false` from then on — the adapters then return `Err`; absence of panics
+inside the stream machine is C20/C01's subject, not claimed here. -/
+
+section Modelled
+open BV.Stream
+
+theorem write_returns_stream (o : Oracle) {B : Nat} (hB : OracleBounded o B) (w : Writer (Option St))
+    (hb : 0 < w.bufSize) (buf : List Nat) :
+    ∃ N, ∀ fuel, N ≤ fuel → (Writer.write (streamEnc o) fuel w buf).2 ≠ .livelock :=
+  write_returns (streamEnc o) opsPF _ (streamEnc_progress_pf o hB) (Or.inl rfl) w hb buf
+
+theorem flush_returns_stream (o : Oracle) {B : Nat} (hB : OracleBounded o B) (w : Writer (Option St))
+    (hb : 0 < w.bufSize) :
+    ∃ N, ∀ fuel, N ≤ fuel → (Writer.flush (streamEnc o) fuel w).2 ≠ .livelock :=
+  flush_returns (streamEnc o) opsFl _ (streamEnc_progress_fl o hB) rfl w hb
+
+theorem into_inner_returns_stream (o : Oracle) {B : Nat} (hB : OracleBounded o B) (w : Writer (Option St))
+    (hb : 0 < w.bufSize) :
+    ∃ N, ∀ fuel, N ≤ fuel → (Writer.intoInner (streamEnc o) fuel w).2 ≠ .livelock :=
+  into_inner_returns (streamEnc o) opsPF _ (streamEnc_progress_pf o hB) (Or.inr rfl) w hb
+
+theorem read_returns_stream (o : Oracle) {B : Nat} (hB : OracleBounded o B) (r : Reader (Option St))
+    (hwf : r.WF) (cap : Nat) :
+    ∃ N, ∀ fuel, N ≤ fuel → (Reader.read (streamEnc o) fuel r cap).2 ≠ .livelock :=
+  read_returns (streamEnc o) opsPF _ (streamEnc_progress_pf o hB) ⟨Or.inl rfl, Or.inr rfl⟩ r hwf cap
+
+theorem copy_terminates_stream (o : Oracle) {B : Nat} (hB : OracleBounded o B) (ib ob : Nat) (e : Option St)
+    (src : Source) (sink : Sink) :
+    ∃ N, ∀ fuel, N ≤ fuel → (Copy.run (streamEnc o) fuel ib ob e src sink).2 ≠ .livelock :=
+  copy_terminates (streamEnc o) opsPF _ (streamEnc_progress_pf o hB) ⟨Or.inl rfl, Or.inr rfl⟩ ib ob e src sink
+
+/-- and the adapters never index outside their buffers because of it -/
+theorem stream_encoder_is_sane (o : Oracle) {B : Nat} (hB : OracleBounded o B) : EncSane (streamEnc o) :=
+  streamEnc_sane o hB
+
+/-- the wrapped encoder does not die by itself: after any call that left it alive it is inside the
+envelope again, and a freshly initialised encoder is inside it -/
+theorem stream_encoder_stays_alive (o : Oracle) {B : Nat} (hB : OracleBounded o B) (s : Option St) (op : Op)
+    (inp : List Nat) (cap : Nat) (s' : St) (h : ((streamEnc o).step s op inp cap).1 = some s') : Good s' :=
+  streamEnc_alive o hB s op inp cap s' h
+
+example : Good (ensureInitialized St.new) := good_fresh ⟨{}, rfl⟩
+example : OracleBounded (fun _ _ => ({} : Ans)) 0 := fun _ _ => Nat.le_refl _
+
+end Modelled
+
 /-! ## non-vacuity: the hypotheses are met by concrete values -/
 
 example : EncSane toyEnc := toy_sane
-example : EncProgress toyEnc toyRank := toy_progress
+example : EncProgress toyEnc allOps toyRank := toy_progress
 example : (Writer.new 3 (⟨[], false⟩ : Toy) ⟨[.atMost 1, .intr, .zero], .full, [], [], []⟩).armed := ⟨rfl, rfl⟩
 example : 0 < (Writer.new 1 (⟨[], false⟩ : Toy) ⟨[], .zero, [], [], []⟩).bufSize := by decide
 example : (Reader.new 1 (⟨[], false⟩ : Toy) ⟨[1, 2, 3], [.atMost 1, .intr], .atMost 2, []⟩).WF := Reader.new_WF _ _ _
